@@ -847,3 +847,13 @@ Lemma rng_unseeded_depends_on_state :
   fst (poisson_noise lcg_init lcg_draw lcg_randint 1%Z (-1)%Z [4; 4; 4]%Z)
   <> fst (poisson_noise lcg_init lcg_draw lcg_randint 2%Z (-1)%Z [4; 4; 4]%Z).
 Proof. vm_compute; discriminate. Qed.
+
+(* ------------------------------------------------------------------ the non-vacuity example of Props/C11.v *)
+Local Open Scope Z_scope.
+Definition example_history : list op :=
+  [ONew [5; 6; 7; 8]; OConstruct (SIn 0) [false; true; false; false] true false; ORead 0 1; OArith 0 [2; 3] 1;
+   ORead 1 1; OSlice 1 [true; false; true]; ORead 2 1; OConstruct (SIn 0) [false; false; false; false] true true;
+   OAlias 3; ORead 4 7; OTrim 4 [false; true; true; false]; ORead 5 7; OCopy 0; ORead 6 1;
+   ONew [1; 2; 3]; OValued 1 [false; false; false]; OValuesMasked 7; OMapRecon 7 0 0; OPeekIn 1;
+   ONew [1]; OImaging 2; OInterf 2; OImaging 2; OPeekIn 0].
+Local Close Scope Z_scope.
